@@ -27,6 +27,15 @@ for m in sorted(glob.glob(ROOT + '/seeded/*/meta.json')):
     c = j.get('confirmed', {})
     det = j.get('detected_by', {})
     dets = '; '.join(f"{k}: {v}" for k, v in det.items()) if det else 'not run yet'
+    missed_before = sorted({r['check'] for r in j.get('runs', []) if r['verdict'] == 'missed'} | set(j.get('missed_before_strengthening', [])))
+    if missed_before:
+        dets += ' (first missed by ' + ', '.join(missed_before) + '; the check was then strengthened)'
+    if not j.get('summary'):
+        a = m.replace('meta.json', 'meta_agent.json')
+        if os.path.exists(a):
+            aj = json.load(open(a))
+            j.setdefault('id', os.path.basename(os.path.dirname(m)))
+            j['summary'] = aj.get('summary', ''); j['needs'] = aj.get('needs', '')
     conf = 'demo clean=%s, with patch=%s, tests=%s/%s' % (c.get('demo_on_clean_tree'), c.get('demo_with_patch'), c.get('existing_tests_root'), c.get('existing_tests_test_module'))
     srows.append(f"| {j['id']} | {esc(j.get('summary',''))[:260]} | {esc(str(j.get('needs','')))[:260]} | {conf} | {esc(dets)[:300]} |")
 seeds = "| seeded change | what it is | what it needs to manifest | confirmation | detected by (check: tier/verdict) |\n|---|---|---|---|---|\n" + "\n".join(srows)
